@@ -94,6 +94,8 @@ fn main() {
                 wsconst.push('D');
             }
             texts.push("7".repeat(rng.urange(65_531, 70_000)));
+            // a document of more than 64 KiB made of short lines (filters and context reach across line breaks)
+            texts.push("」\n「あ".repeat(rng.urange(9_000, 11_000)));
             texts.push(format!("{}\0", "あ".repeat(rng.urange(21_900, 23_000))));
             ctx.count("texts_with_token_longer_than_65530_bytes", 2);
         }
@@ -105,6 +107,10 @@ fn main() {
                 texts.push(to_string(&vgen::text::text_from(&mut rng, &a, n)));
             }
             texts.push("ラ－メン―を–食べ─る".to_string());
+        }
+        // near-blank documents with Windows line endings (CR LF is one grapheme cluster of two single-byte characters)
+        for t in ["\r\n", " \r\n \r\n", "#\r\n$;\r\n", "\r\n\r\n~"] {
+            texts.push(t.to_string());
         }
         // texts whose byte length is exactly three times their character count without being all 3-byte
         for t in ["a𠮷𠮷", "𠮷é", "x𠮷𠮷野家", "\n𠮷𠮷", "ab𠮷𠮷𠮷𠮷人"] {
